@@ -522,3 +522,25 @@ func bucket14(n int) string {
 	}
 	return ">4096"
 }
+
+// native fuzzing over result values: the fuzzer owns the strings (and the server-supplied JSON document)
+func FuzzC14JSON(f *testing.F) {
+	f.Add(uint8(0), []byte("10.0.0.1"), []byte("00:11:22:33:44:55"), []byte("Vendor \"x\""), []byte(`{"a":1}`), uint16(80), false)
+	f.Add(uint8(9), []byte("host\n"), []byte("http\\"), []byte("logstash-%{+YYYY.MM.dd}"), []byte(`{"name":"n\u2028","nested":{"k":[1,2,{"x":null}]}}`), uint16(9200), true)
+	f.Add(uint8(3), []byte("\xff\xfe"), []byte("\x00"), []byte("</script>"), []byte(`{}`), uint16(0), false)
+	f.Fuzz(func(t *testing.T, kind uint8, s1, s2, s3, doc []byte, n1 uint16, uniq bool) {
+		if len(s1)+len(s2)+len(s3)+len(doc) > 1<<16 {
+			return
+		}
+		var probe map[string]interface{}
+		if json.Unmarshal(doc, &probe) != nil {
+			doc = []byte(`{"fuzz":true}`)
+		}
+		r := c14Res{Kind: c14Kinds[int(kind)%len(c14Kinds)], S1: s1, S2: s2, S3: s3, N1: n1, N2: uint8(n1), N3: uint8(n1 >> 8), B: uniq, Doc: doc}
+		r2 := r
+		r2.S1 = append(append([]byte{}, s1...), 'x')
+		if v := c14Check(c14Case{Results: []c14Res{r, r2, r}, Unique: uniq}); v.Err != nil {
+			t.Fatalf("property C14 violated: %v", v.Err)
+		}
+	})
+}
